@@ -8,7 +8,7 @@ B8(a, b, c, d, e, f, g, h) == <<a, b, c, d, e, f, g, h>>
 \* strings: ASCII, quote/backslash/control characters, markup characters, 2/3/4-byte UTF-8, U+FFFF, U+10FFFF, '/'
 JStrings == { JS(<<>>), JS(<<97, 98>>), JS(<<34, 92, 47>>), JS(<<10, 9, 13, 1, 31>>), JS(<<60, 38, 62, 39>>),
               JS(<<208, 159>>), JS(<<226, 130, 172>>), JS(<<240, 159, 152, 128>>), JS(<<239, 191, 191>>), JS(<<244, 143, 191, 191>>),
-              JS(<<127, 194, 128>>) }
+              JS(<<127, 194, 128>>), JS(<<97, 0, 98>>), JS(<<0>>) }        \* incl. U+0000 (written \\u0000)
 JInts == { JU(0), JU(-1), JU(127), JU(-128), JU(65535), JU(2147483647), JU(-2147483647),
            <<"int", FALSE, B8(0,0,0,0,255,255,255,255)>>, <<"int", FALSE, B8(0,0,0,0,238,107,40,0)>>,     \* 4294967295, 4000000000
            <<"int", FALSE, B8(127,255,255,255,255,255,255,255)>>, <<"int", TRUE, B8(128,0,0,0,0,0,0,0)>>, <<"int", FALSE, B8(255,255,255,255,255,255,255,255)>> }
